@@ -203,6 +203,11 @@ def corr_decode(acc, st, build, data, seekable, rc, got, removed, test=False, rm
     mrc, mout, mrm = model_dec(st, build, data, seekable, test, rm, fault)
     acc.stats["corr_compared"] += 1
     acc.stats["corr_exit_%s_model_%d_real_%d" % (build, mrc, rc)] += 1
+    if rc == 0 and mrc in (64, 66, 34, 26) and iolib.stream_has_offset0(data):
+        # the library block decoder accepts a match offset 0 which the block specification (the model's decoder) rejects:
+        # finding F5 of C05, outside the CLI control flow that this correspondence is about
+        acc.stats["corr_excluded_offset0_F5"] += 1
+        return
     bad = []
     if (mrc == 0) != (rc == 0):
         bad.append("exit class")
